@@ -251,6 +251,13 @@ func checkStress32(sc scenarioT, r *evid.Rec) []evid.Disc {
 			fmt.Fprintf(&b, "\n%s\n", excerpt(gs[culprit.G], 14))
 			shown++
 		}
+		for _, g := range gs { // a broker goroutine blocked inside the connection's Write: it holds the client lock
+			for _, f := range g.Funcs {
+				if f == "verif/harness/pstress.(*memConn).Write" && len(g.repoFrames()) > 0 {
+					fmt.Fprintf(&b, "\nblocked in the connection's Write (peer not reading, no deadline), reached through %s:\n%s\n", strings.Join(g.repoFrames(), " <- "), excerpt(g, 12))
+				}
+			}
+		}
 		for _, w := range res.Waiters {
 			if shown >= 4 {
 				break
